@@ -206,6 +206,19 @@ theorem step_frame (c : Cfg) (s s' : State) (a : Act) (i : Nat) (hs : step c s a
     simp only [step] at hs
     (repeat' split at hs) <;> cases hs <;> exact frame_of_eq rfl (by simp [hl])
 
+/-- general form: any start state in which step `i` is recorded finished/skipped with no worker -/
+theorem keep_inv_gen (c : Cfg) (st : Nat → NStatus) (i : Nat) (hk : st i = .success ∨ st i = .skipped)
+    (s0 : State) (h0 : Kept st i s0) :
+    ∀ s, ReachFrom c s0 s → Kept st i s := by
+  intro s h
+  induction h with
+  | init => exact h0
+  | @step s1 s2 a _ hs ih =>
+    obtain ⟨h1, h2, h3, h4⟩ := ih
+    have hst : (s1.nd i).status = .success ∨ (s1.nd i).status = .skipped := by rw [h2]; exact hk
+    obtain ⟨f1, f2, f3, f4⟩ := step_frame c s1 s2 a i hs hst h3 h4
+    exact ⟨by rw [f1, h1], by rw [f2, h2], by rw [f3, h3], f4⟩
+
 theorem keep_inv (c : Cfg) (st : Nat → NStatus) (i : Nat) (hk : st i = .success ∨ st i = .skipped) :
     ∀ s, ReachFrom c (initFrom st) s → Kept st i s := by
   intro s h
